@@ -14,7 +14,7 @@
     of visited nodes with the value written and whether the choice was called. *)
 From Coq Require Import List NArith PArith Bool Arith.
 From OxiVerif Require Import DD.Table DD.TableProofs DD.BuildProofs DD.ApplyProofs DD.SatCount
-  DD.Pick DD.PickProofs DD.PickBdd.
+  DD.Pick DD.PickProofs DD.PickBdd DD.PickBcdd DD.PickZbdd DD.PickExamples.
 Import ListNotations.
 
 (** * BDD *)
@@ -149,3 +149,253 @@ Theorem C13_bdd_count_is_model_count : forall s e, BddOK s -> good_bdd s e ->
   count_bdd s e = count_levels (nlevels s) (fun_bdd s (eref e)).
 Proof. exact count_bdd_spec. Qed.
 Print Assumptions C13_bdd_count_is_model_count.
+
+(** * BCDD (complement edges): the same statements for [view_bcdd] / [semc] *)
+
+Theorem C13_bcdd_pick_total : forall St choice s st e, BcddOK s -> good_bcdd s e ->
+  exists r, pick_cube_bcdd St choice s st e = Some r.
+Proof. exact pick_cube_bcdd_total. Qed.
+Print Assumptions C13_bcdd_pick_total.
+
+Theorem C13_bcdd_pick_none_iff_false : forall St choice s st e, BcddOK s -> good_bcdd s e ->
+  (pick_cube_bcdd St choice s st e = Some None <-> forall a, den_bcdd s e a = false).
+Proof. exact pick_cube_bcdd_none_iff. Qed.
+Print Assumptions C13_bcdd_pick_none_iff_false.
+
+Theorem C13_bcdd_pick_implicant : forall St choice s st e cb tr st', BcddOK s -> good_bcdd s e ->
+  pick_cube_bcdd St choice s st e = Some (Some (cb, tr, st')) ->
+  forall a, agrees s a cb -> den_bcdd s e a = true.
+Proof. exact pick_cube_bcdd_implicant. Qed.
+Print Assumptions C13_bcdd_pick_implicant.
+
+Theorem C13_bcdd_pick_cube_entries : forall St choice s st e cb tr st', BcddOK s -> good_bcdd s e ->
+  pick_cube_bcdd St choice s st e = Some (Some (cb, tr, st')) ->
+  length cb = nlevels s /\
+  forall l, l < nlevels s ->
+    cube_lit s cb l = match trace_val tr l with Some v => v | None => None end.
+Proof.
+  intros St choice s st e cb tr st' B G E.
+  destruct (pick_cube_bcdd_some St choice s st e cb tr st' B G E) as [_ X]. exact X.
+Qed.
+Print Assumptions C13_bcdd_pick_cube_entries.
+
+Theorem C13_bcdd_choice_once_per_level : forall St choice s st e cb tr st', BcddOK s -> good_bcdd s e ->
+  pick_cube_bcdd St choice s st e = Some (Some (cb, tr, st')) ->
+  incr_from (rlevel s (eref e)) (map sp_level tr) /\
+  (forall p, In p tr -> sp_level p < nlevels s) /\
+  (forall p, In p tr -> call_ok view_bcdd good_bcdd den_bcdd s p).
+Proof.
+  intros St choice s st e cb tr st' B G E.
+  destruct (pick_cube_bcdd_some St choice s st e cb tr st' B G E) as [R _].
+  destruct (run_bcdd_levels St choice s st e tr st' B R G) as [A C].
+  split; [exact A|]. split; [exact C|]. apply (run_bcdd_calls St choice s st e tr st' B R G).
+Qed.
+Print Assumptions C13_bcdd_choice_once_per_level.
+
+Theorem C13_bcdd_choice_respected : forall St choice s st e cb tr st', BcddOK s -> good_bcdd s e ->
+  pick_cube_bcdd St choice s st e = Some (Some (cb, tr, st')) ->
+  replay St choice st tr = (asked_vals tr, st').
+Proof.
+  intros St choice s st e cb tr st' B G E.
+  destruct (pick_cube_bcdd_some St choice s st e cb tr st' B G E) as [R _].
+  apply (run_bcdd_answers St choice s st e tr st' R).
+Qed.
+Print Assumptions C13_bcdd_choice_respected.
+
+(** incl. [add_literal_to_cube]: the result is in complement-edge normal form
+    ([BcddOK s'] contains [WF s']) *)
+Theorem C13_bcdd_pick_same_cube : forall St choice s st e cb tr st', BcddOK s -> good_bcdd s e ->
+  pick_cube_bcdd St choice s st e = Some (Some (cb, tr, st')) ->
+  exists s' r,
+    pick_cube_dd_bcdd St choice s st e = Some (s', r, tr, st') /\
+    BcddOK s' /\ extends s s' /\ good_bcdd s' r /\
+    forall a, den_bcdd s' r a = true <-> agrees s a cb.
+Proof. exact pick_dd_bcdd_same_cube. Qed.
+Print Assumptions C13_bcdd_pick_same_cube.
+
+Theorem C13_bcdd_pick_dd_implicant : forall St choice s st e s' r tr st', BcddOK s -> good_bcdd s e ->
+  pick_cube_dd_bcdd St choice s st e = Some (s', r, tr, st') ->
+  BcddOK s' /\ extends s s' /\ good_bcdd s' r /\
+  (forall a, den_bcdd s' r a = true -> den_bcdd s' e a = true) /\
+  ((forall a, den_bcdd s' r a = false) <-> (forall a, den_bcdd s e a = false)).
+Proof. exact pick_dd_bcdd_implicant. Qed.
+Print Assumptions C13_bcdd_pick_dd_implicant.
+
+Theorem C13_bcdd_pick_dd_set : forall s e set L, BcddOK s -> good_bcdd s e -> good_bcdd s set ->
+  cube_lits view_bcdd (S (nlevels s)) s set = Some L ->
+  pick_cube_dd_set_bcdd s e set =
+  drop_st (pick_cube_dd_bcdd unit (mask_choice (lit_pol L)) s tt e) /\
+  forall a, den_bcdd s set a = forallb (fun p : nat * bool => Bool.eqb (a (fst p)) (snd p)) L.
+Proof.
+  intros s e set L B G Gs E. split.
+  - apply pick_dd_set_bcdd_eq; assumption.
+  - apply cube_lits_bcdd_den; assumption.
+Qed.
+Print Assumptions C13_bcdd_pick_dd_set.
+
+Theorem C13_bcdd_uniform_model : forall draws s e cb tr k, BcddOK s -> good_bcdd s e ->
+  pick_uniform_bcdd draws s e = Some (Some (cb, tr, k)) ->
+  forall a, agrees s a cb -> den_bcdd s e a = true.
+Proof. exact pick_uniform_bcdd_model. Qed.
+Print Assumptions C13_bcdd_uniform_model.
+
+Theorem C13_bcdd_uniform_none_iff_false : forall draws s e, BcddOK s -> good_bcdd s e ->
+  (pick_uniform_bcdd draws s e = Some None <-> forall a, den_bcdd s e a = false).
+Proof. exact pick_uniform_bcdd_none_iff. Qed.
+Print Assumptions C13_bcdd_uniform_none_iff_false.
+
+Theorem C13_bcdd_uniform_prob : forall St choice s st e tr st', BcddOK s ->
+  Run view_bcdd St choice s st e tr st' -> good_bcdd s e ->
+  let (num, dn) := trace_weight view_bcdd count_bcdd s tr in
+  (0 < num /\ 0 < dn /\ 0 < count_bcdd s e /\
+   num * count_bcdd s e * 2 ^ N.of_nat (length tr) = dn * 2 ^ N.of_nat (nlevels s))%N.
+Proof. exact run_bcdd_weight. Qed.
+Print Assumptions C13_bcdd_uniform_prob.
+
+Theorem C13_bcdd_count_is_model_count : forall s e, BcddOK s -> good_bcdd s e ->
+  count_bcdd s e = count_levels (nlevels s) (fun_bcdd s e).
+Proof. exact count_bcdd_spec. Qed.
+Print Assumptions C13_bcdd_count_is_model_count.
+
+(** * ZBDD: a skipped level forces the variable to false, a node with equal
+    children is a don't care; the vector starts all-false *)
+
+Theorem C13_zbdd_pick_total : forall St choice s st e, ZbddOK s -> good_z s e ->
+  exists r, pick_cube_z St choice s st e = Some r.
+Proof. exact pick_cube_z_total. Qed.
+Print Assumptions C13_zbdd_pick_total.
+
+Theorem C13_zbdd_pick_none_iff_false : forall St choice s st e, ZbddOK s -> good_z s e ->
+  (pick_cube_z St choice s st e = Some None <-> forall a, den_z s e a = false).
+Proof. exact pick_cube_z_none_iff. Qed.
+Print Assumptions C13_zbdd_pick_none_iff_false.
+
+Theorem C13_zbdd_pick_implicant : forall St choice s st e cb tr st', ZbddOK s -> good_z s e ->
+  pick_cube_z St choice s st e = Some (Some (cb, tr, st')) ->
+  forall a, agrees s a cb -> den_z s e a = true.
+Proof. exact pick_cube_z_implicant. Qed.
+Print Assumptions C13_zbdd_pick_implicant.
+
+(** entries: the value written at the visit of the level; false (not
+    don't-care) for the levels that are not on the path *)
+Theorem C13_zbdd_pick_cube_entries : forall St choice s st e cb tr st', ZbddOK s -> good_z s e ->
+  pick_cube_z St choice s st e = Some (Some (cb, tr, st')) ->
+  length cb = nlevels s /\
+  forall l, l < nlevels s ->
+    cube_lit s cb l = match trace_val tr l with Some v => v | None => Some false end.
+Proof.
+  intros St choice s st e cb tr st' B G E.
+  destruct (pick_cube_z_some St choice s st e cb tr st' B G E) as [_ X]. exact X.
+Qed.
+Print Assumptions C13_zbdd_pick_cube_entries.
+
+Theorem C13_zbdd_choice_once_per_level : forall St choice s st e cb tr st', ZbddOK s -> good_z s e ->
+  pick_cube_z St choice s st e = Some (Some (cb, tr, st')) ->
+  incr_from (rlevel s (eref e)) (map sp_level tr) /\
+  (forall p, In p tr -> rlevel s (eref e) <= sp_level p < nlevels s) /\
+  (forall p, In p tr -> call_ok_z s p).
+Proof.
+  intros St choice s st e cb tr st' B G E.
+  destruct (pick_cube_z_some St choice s st e cb tr st' B G E) as [R _].
+  destruct (pathz_levels s B e tr (runz_path s St choice _ _ _ _ R) G) as [A C].
+  split; [exact A|]. split; [exact C|]. apply (runz_calls St choice s B st e tr st' R G).
+Qed.
+Print Assumptions C13_zbdd_choice_once_per_level.
+
+Theorem C13_zbdd_choice_respected : forall St choice s st e cb tr st', ZbddOK s -> good_z s e ->
+  pick_cube_z St choice s st e = Some (Some (cb, tr, st')) ->
+  replay St choice st tr = (asked_vals tr, st').
+Proof.
+  intros St choice s st e cb tr st' B G E.
+  destruct (pick_cube_z_some St choice s st e cb tr st' B G E) as [R _].
+  apply (runz_answers St choice s st e tr st' R).
+Qed.
+Print Assumptions C13_zbdd_choice_respected.
+
+Theorem C13_zbdd_pick_same_cube : forall St choice s st e cb tr st', ZbddOK s -> good_z s e ->
+  pick_cube_z St choice s st e = Some (Some (cb, tr, st')) ->
+  exists s' r,
+    pick_cube_dd_z St choice s st e = Some (s', r, tr, st') /\
+    ZbddOK s' /\ extends s s' /\ good_z s' r /\
+    forall a, den_z s' r a = true <-> agrees s a cb.
+Proof. exact pick_dd_z_same_cube. Qed.
+Print Assumptions C13_zbdd_pick_same_cube.
+
+Theorem C13_zbdd_pick_dd_implicant : forall St choice s st e s' r tr st', ZbddOK s -> good_z s e ->
+  pick_cube_dd_z St choice s st e = Some (s', r, tr, st') ->
+  ZbddOK s' /\ extends s s' /\ good_z s' r /\
+  (forall a, den_z s' r a = true -> den_z s' e a = true) /\
+  ((forall a, den_z s' r a = false) <-> (forall a, den_z s e a = false)).
+Proof. exact pick_dd_z_implicant. Qed.
+Print Assumptions C13_zbdd_pick_dd_implicant.
+
+(** [pick_cube_dd_set] (ZBDD): with a literal set that is a cube diagram
+    ([cube_lits_z]) the result is a satisfiable cube - exactly the literals of
+    the trace, false on all other levels - that implies the function; at every
+    visited node a forced value wins (else-child Empty: true), otherwise a
+    positive literal gives true, a negative one false, and a variable that does
+    not occur is left don't-care where the diagram allows ([hi = lo]) and set
+    to true otherwise ([set_rule]); the false function is returned unchanged *)
+Theorem C13_zbdd_pick_dd_set : forall s e set L, ZbddOK s -> good_z s e -> good_z s set ->
+  cube_lits_z (S (nlevels s)) s set = Some L -> is_false view_plain s e = false ->
+  exists s' r tr, pick_cube_dd_set_z s e set = Some (s', r, tr) /\
+    ZbddOK s' /\ extends s s' /\ good_z s' r /\
+    (forall a, den_z s' r a = zsatb s a 0 tr) /\
+    (forall a, den_z s' r a = true -> den_z s' e a = true) /\
+    (exists a, den_z s' r a = true) /\
+    forall p, In p tr -> set_rule s L p.
+Proof. exact pick_dd_set_z_ok. Qed.
+Print Assumptions C13_zbdd_pick_dd_set.
+
+Theorem C13_zbdd_pick_dd_set_false : forall s e set, is_false view_plain s e = true ->
+  pick_cube_dd_set_z s e set = Some (s, e, []).
+Proof. exact pick_dd_set_z_false. Qed.
+Print Assumptions C13_zbdd_pick_dd_set_false.
+
+Theorem C13_zbdd_uniform_model : forall draws s e cb tr k, ZbddOK s -> good_z s e ->
+  pick_uniform_z draws s e = Some (Some (cb, tr, k)) ->
+  forall a, agrees s a cb -> den_z s e a = true.
+Proof. exact pick_uniform_z_model. Qed.
+Print Assumptions C13_zbdd_uniform_model.
+
+Theorem C13_zbdd_uniform_none_iff_false : forall draws s e, ZbddOK s -> good_z s e ->
+  (pick_uniform_z draws s e = Some None <-> forall a, den_z s e a = false).
+Proof. exact pick_uniform_z_none_iff. Qed.
+Print Assumptions C13_zbdd_uniform_none_iff_false.
+
+(** probability of a trace = 2^(don't-care entries) / #models *)
+Theorem C13_zbdd_uniform_prob : forall s, ZbddOK s -> forall St choice st e tr st',
+  RunZ s St choice st e tr st' -> good_z s e ->
+  let (num, dn) := trace_weight view_plain count_zbdd s tr in
+  (0 < num /\ 0 < dn /\ 0 < count_zbdd s e /\ num * count_zbdd s e = dn * 2 ^ N.of_nat (dcs tr))%N.
+Proof. exact runz_weight. Qed.
+Print Assumptions C13_zbdd_uniform_prob.
+
+Theorem C13_zbdd_count_is_model_count : forall s e, ZbddOK s -> good_z s e ->
+  count_zbdd s e = count_levels (nlevels s) (fun_zbdd s (eref e)).
+Proof. exact count_zbdd_models. Qed.
+Print Assumptions C13_zbdd_count_is_model_count.
+
+(** * The checkers used by the driver decide the hypotheses *)
+
+Theorem C13_bcdd_ok_b_spec : forall s, bcdd_ok_b s = true <-> BcddOK s.
+Proof. exact bcdd_ok_b_spec. Qed.
+Print Assumptions C13_bcdd_ok_b_spec.
+
+Theorem C13_zbdd_ok_b_spec : forall s, zbdd_ok_b s = true <-> ZbddOK s.
+Proof. exact zbdd_ok_b_spec. Qed.
+Print Assumptions C13_zbdd_ok_b_spec.
+
+(** * The hypotheses are satisfiable (concrete tables of (x0 /\ x1) \/ x2; more
+    in DD/PickExamples.v: literal sets built by [mk_cube] satisfy [cube_lits]) *)
+
+Theorem C13_hypotheses_satisfiable :
+  (BddOK ex_sat_bdd /\ good_bdd ex_sat_bdd (xe (RN 4))) /\
+  (BcddOK ex_sat_bcdd /\ good_bcdd ex_sat_bcdd (mkEdge (RN 4) true)) /\
+  (ZbddOK ex_sat_zbdd /\ good_z ex_sat_zbdd (xe (RN 6))).
+Proof.
+  split; [split; [exact ex_bdd_ok | exact ex_bdd_good]|].
+  split; [split; [exact ex_bcdd_ok | exact ex_bcdd_good]|].
+  split; [exact ex_zbdd_ok | exact ex_zbdd_good].
+Qed.
+Print Assumptions C13_hypotheses_satisfiable.
